@@ -29,7 +29,7 @@ def h_rzw(ctx, cfg):
     aer = ctx.real("Aer", 1, 15)
     snap = prof_snapshot(prof)
     th0 = list(th)
-    out = M.root_zone_water(prof, zroot, th, cfg["ztop"], zmin, aer)
+    out = M.root_zone_water(prof, zroot, th, max(cfg["ztop"], float(cfg["dzs"][0])), zmin, aer)    # Soil.z_top = max(z_top, dz[0]) as the Soil class sets it
     (wr, dr_zt, dr_rz, taw_zt, taw_rz, th_act, th_s, th_fc, th_wp, th_dry, th_aer) = out
     for k, v in zip("Wr Dr_Zt Dr_Rz TAW_Zt TAW_Rz thRZ_Act thRZ_S thRZ_FC thRZ_WP thRZ_Dry thRZ_Aer".split(), out):
         ctx.out(k, v)
